@@ -167,18 +167,23 @@ func (c *connection) Release() (err error) {
 	// A closed connection no longer owns its operator (the slot may already serve another connection),
 	// and there is no point in tuning the input buffer of a dead connection.
 	if c.inputBuffer.Len() == 0 && c.IsActive() && c.operator.do() {
-		maxSize := c.inputBuffer.calcMaxSize()
-		// Set the maximum value of maxsize equal to mallocMax to prevent GC pressure.
-		if maxSize > mallocMax {
-			maxSize = mallocMax
-		}
+		// The connection may have been closed between the check above and do(); by now its slot can
+		// belong to another connection. The token pins the slot only for a connection that is still
+		// active, so look again before touching anything.
+		if c.IsActive() {
+			maxSize := c.inputBuffer.calcMaxSize()
+			// Set the maximum value of maxsize equal to mallocMax to prevent GC pressure.
+			if maxSize > mallocMax {
+				maxSize = mallocMax
+			}
 
-		if maxSize > c.maxSize {
-			c.maxSize = maxSize
-		}
-		// Double check length to reset tail node
-		if c.inputBuffer.Len() == 0 {
-			c.inputBuffer.resetTail(c.maxSize)
+			if maxSize > c.maxSize {
+				c.maxSize = maxSize
+			}
+			// Double check length to reset tail node
+			if c.inputBuffer.Len() == 0 {
+				c.inputBuffer.resetTail(c.maxSize)
+			}
 		}
 		c.operator.done()
 	}
